@@ -63,6 +63,9 @@ func DigestXapTar(r io.Reader, hash crypto.Hash, doPageHash bool) (*XapDigest, e
 		}
 	}
 	bodySize := totalSize - int64(len(cd))
+	if bodySize < 0 {
+		return nil, errors.New("invalid tarzip")
+	}
 	d := hash.New()
 	if _, err := io.CopyN(d, tr, bodySize); err != nil {
 		return nil, err
